@@ -539,6 +539,13 @@ func cmdCheck(args []string) int {
 	if zf, ok := cov["fault_kinds_never_fired"].([]string); ok && len(zf) > 0 {
 		fmt.Printf("warning: fault kinds never fired: %s\n", strings.Join(zf, ", "))
 	}
+	if cs, ok := cov["counters"].(map[string]int64); ok {
+		for _, k := range []string{"unreproducible-mismatch", "free-run-fallback"} {
+			if cs[k] > 0 {
+				fmt.Printf("warning: %d run(s) counted under %q were dropped unjudged (see DESIGN.md)\n", cs[k], k)
+			}
+		}
+	}
 	for _, l := range violLines {
 		fmt.Println(l)
 	}
